@@ -523,7 +523,10 @@ def qa_siblings(ctx: Ctx):
     sparse_choices = need(kw(space[0], "sparse_vars"), "data Space without sparse_vars")
     sq = []
     for c in calls_in_frame(prog, dsc, "lcm.simulate.dict_product"):
-        sq = deep_selections(prog, c[2][0] if c[2] else kw(c, "d"))
+        sq = deep_selections(prog, c[2][0] if c[2] else kw(c, "d")) or sq
+    if not sq:
+        # no dict_product helper: the combination grid is built in place from the selected grids
+        sq = [q for q in deep_selections(prog, sparse_choices) if "function_info" not in show(q)]
     need(sq, "create_data_scs: sparse choices not selected by a query")
     simfr = prog.frame("lcm.simulate.simulate")
     scv = selections(simfr.env.get("sparse_choice_variables", ()))
